@@ -70,3 +70,17 @@ Theorem center_sum_overflow_old_refuted :
   midpoint_old IX F32 (W 12) (W 13) = XP /\ x_lt (XF ((25 * 2 ^ 123)%Z # 1)) (XF FLT_MAX) = true /\
   midpoint_old IX I32 (Zx 2000000000) (Zx 2100000000) = Zx (-97483648).
 Proof. repeat split; vm_compute; reflexivity. Qed.
+
+(* known finding C05-center-int-bounds-above-INT_MAX-127: for int elements the midpoint is formed in binary32.  float(INT_MAX) rounds up
+   to 2^31, .5f*2^31 + .5f*2^31 = 2^31, and converting 2^31 back to int is undefined in C++ (read here as the x86 indefinite integer
+   INT_MIN, see Model.x_cast): the result leaves [lower, upper].  The same happens whenever the rounded sum is 2^31, i.e. exactly when
+   upper >= INT_MAX-63 and lower >= INT_MAX-190; one step below ([INT_MAX-191, INT_MAX]) and on the INT_MIN side (float(INT_MIN) = -2^31
+   is exact, the conversion is defined) the result is the midpoint within float rounding. *)
+Theorem center_int_top_refuted :
+  r_center (ops_1i IX) (mk_range_t_s IX (Zx 2147483647) (Zx 2147483647)) = Zx (-2147483648) /\
+  r_center (ops_1i IX) (mk_range_t_s IX (Zx (2147483647 - 190)) (Zx (2147483647 - 63))) = Zx (-2147483648) /\
+  r_center (ops_1i IX) (mk_range_t_s IX (Zx (2147483647 - 191)) (Zx 2147483647)) = Zx (2147483647 - 127) /\
+  r_center (ops_1i IX) (mk_range_t_s IX (Zx (2147483647 - 100)) (Zx (2147483647 - 100))) = Zx (2147483647 - 127) /\
+  r_center (ops_1i IX) (mk_range_t_s IX (Zx (-2147483648)) (Zx (-2147483648))) = Zx (-2147483648) /\
+  r_center (ops_1i IX) (mk_range_t_s IX (Zx (-2147483648)) (Zx (-2147483648 + 200))) = Zx (-2147483648 + 128).
+Proof. repeat split; vm_compute; reflexivity. Qed.
